@@ -45,7 +45,7 @@ func (r *result) v(sig, format string, a ...any) {
 	}
 }
 
-var famNames = []string{"zeros", "ones", "alt±1", "ramp", "subnormal", "big-small", "one-huge", "lfsr"}
+var famNames = []string{"zeros", "ones", "alt±1", "ramp", "subnormal", "big-small", "one-huge", "lfsr", "near-equal-large"}
 
 func fill(dst []float32, fam, n, which int) {
 	lf := uint32(0xACE1 + n*2654435761 + which*97)
@@ -89,6 +89,11 @@ func fill(dst []float32, fam, n, which int) {
 			lf ^= lf >> 17
 			lf ^= lf << 5
 			v = float32(int32(lf%2001)-1000) / 250
+		case 8:
+			// components around 100 that differ by 2^-10 between the operands: the
+			// distance is tiny compared with the norms (an expanded-form kernel
+			// |x|^2+|y|^2-2<x,y> cancels catastrophically here)
+			v = 100 + float32(i%5) + float32(which)/1024
 		}
 		dst[i] = v
 	}
@@ -122,8 +127,10 @@ func reference(kind string, x, y []float32) (ref, mag float64) {
 		if kind == "euclid" {
 			d := a - b
 			t = d * d
-			// rounding of the float32 subtraction also matters: bound with |a|+|b|
-			mag += (math.Abs(a) + math.Abs(b)) * (math.Abs(a) + math.Abs(b))
+			// error budget of the definition evaluated in float32 in any summation
+			// order: the subtraction of two float32 values and the square each round
+			// relative to their own result, the sum relative to the sum of the terms
+			mag += t
 		} else {
 			t = a * b
 			mag += math.Abs(t)
@@ -410,7 +417,7 @@ func worker(raw json.RawMessage) (json.RawMessage, error) {
 }
 
 func master(cfg *harness.Config, rep *harness.Report) {
-	rep.Rule = "float kernels: every length 1..4096 x operand offsets (quick {0,1,3} independently for both operands; thorough 0..8) x 8 value families x 7 implementations (asm.Dot, asm.SquaredEuclideanDistance, the three dispatched functions, the two pure-Go fallbacks) against a float64 reference with tolerance 4·len·2^-23·Σ|terms|, NaN canaries around both operand slices, bit-exact symmetry, exact zero cases; bit metrics: every length 1..4096 x 4 store configurations (hamming, jaccard, fixed threshold, learned threshold for len<=192) x 15 pattern pairs through the real vector store, and all 2^len x 2^len pairs for len<=6 (thorough <=7); haversine: all ordered pairs of a 37x73 lattice against an independent atan2 formulation. non-trivial = lengths at block/tail or word boundaries, distinct bit pairs, lattice rows"
+	rep.Rule = "float kernels: every length 1..4096 x operand offsets (quick {0,1,3} independently for both operands; thorough 0..8) x 9 value families (incl. near-equal operands of large norm) x 7 implementations (asm.Dot, asm.SquaredEuclideanDistance, the three dispatched functions, the two pure-Go fallbacks) against a float64 reference with tolerance 4·len·2^-23·Σ|terms of the definition| (for the euclidean distance the terms are (x_i-y_i)^2, not the norms), NaN canaries around both operand slices, bit-exact symmetry, exact zero cases; bit metrics: every length 1..4096 x 4 store configurations (hamming, jaccard, fixed threshold, learned threshold for len<=192) x 15 pattern pairs through the real vector store, and all 2^len x 2^len pairs for len<=6 (thorough <=7); haversine: all ordered pairs of a 37x73 lattice against an independent atan2 formulation. non-trivial = lengths at block/tail or word boundaries, distinct bit pairs, lattice rows"
 	rep.Assumptions = []string{"float values outside the eight families are not enumerated", "runs on this CPU (AVX2+FMA present: the asm kernels are the dispatched ones); the pure-Go fallbacks are swept through the verif export hook"}
 	var jobs []json.RawMessage
 	add := func(j job) {
